@@ -4,10 +4,11 @@ pub mod js;
 pub mod rng;
 pub mod props {
     pub mod c07;
+    pub mod c08;
 }
 
 use harness::Prop;
 
 pub fn props() -> Vec<&'static Prop> {
-    vec![&props::c07::PROP]
+    vec![&props::c07::PROP, &props::c08::PROP]
 }
